@@ -66,7 +66,7 @@ func devMatcher(flag int) run.Matcher {
 
 // infeasibleDevs are deviation models of resource exhaustion: they never
 // explain an output, they only mark cases that must not be run.
-const infeasibleDevs = refarr.DevMapEagerAlloc
+const infeasibleDevs = 0 // map over a huge length with an early exit is run since the fix of KF-C08-map-eager-alloc
 
 func registerMatchers() {
 	// A worker killed by the runtime (out of memory) while executing map over a
